@@ -426,10 +426,102 @@ def work_sweep(job):
 # --------------------------------------------------------------------------------------
 # driver
 # --------------------------------------------------------------------------------------
-def _work(c):
+def _work_inner(c):
     if isinstance(c, (tuple, list)):
         return work_sweep(tuple(c))
     return work_transparent(c) if c['kind'] == 'transparent' else work_rerun(c)
+
+
+# ---- line coverage of the implementation functions the models claim to cover (tools/linecov.py) ----
+# the only line that may stay unreached, with the reason:
+COV_ALLOW = ('assert False',)   # EstimationModel.correct_increments: defensive `else: assert False` after the
+#                                 DataFrame / Series cases; the filters only pass DataFrames and Series
+
+
+def cov_functions():
+    """the ORIGINAL function objects (call before any wrapper is installed)"""
+    from pyins import filters, inertial_sensor, error_model
+    E = inertial_sensor.EstimationModel
+    return {'filters.run_feedback_filter': filters.run_feedback_filter,
+            'filters._correct_increments': filters._correct_increments,
+            'EstimationModel.reset_estimates': E.reset_estimates,
+            'EstimationModel.update_estimates': E.update_estimates,
+            'EstimationModel.get_estimates': E.get_estimates,
+            'EstimationModel.correct_increments': E.correct_increments,
+            'InsErrorModel.correct_pva': error_model.InsErrorModel.correct_pva}
+
+
+def _work(c):
+    import linecov
+    if isinstance(c, (tuple, list)):         # the error-scale sweep is long and adds no new lines: not monitored
+        return _work_inner(c)
+    cov = linecov.LineCoverage(cov_functions())
+    with cov:
+        measured = cov.active
+        o = _work_inner(c)
+    if measured:
+        o['cov'] = {k: sorted(v) for k, v in cov.hit.items()}
+    return o
+
+
+def corpus():
+    """fixed cases, run first, that reach every branch of the covered functions whatever the seed: default
+    models / measurements None / []; step below the sampling interval and above the span; a measurement epoch
+    with bias and scale-misalignment states (update / get: both kinds of state; correct_increments: Series and
+    DataFrame; correct_pva: both altitude modes); a sensor without any stamp in the span next to sensors with."""
+    ep = [512, 528, 544, 560, 576]
+    none = dict(bias=[0, 0, 0], walk=[0, 0, 0], noise=[0, 0, 0], sm=[0] * 9)
+    full = dict(bias=[1, 1, 1], walk=[1, 0, 1], noise=[1, 1, 0], sm=[1, 0, 0, 0, 1, 0, 1, 0, 1])
+    bias = dict(bias=[1, 0, 1], walk=[0, 0, 0], noise=[0, 1, 0], sm=[0] * 9)
+    base_ = dict(gscale=[1e-4, 1e-5, 1e-7, 1e-3], ascale=[1e-2, 1e-3, 1e-4, 1e-3], sig=[10.0, 1.0, 0.5, 2.0])
+
+    def sched(**k):
+        d = dict(filter='fb', epochs=ep, sensors=[], meas_mode='none', step=1, alt=True, cats=['corpus'])
+        d.update(k)
+        return d
+    meas = [['Position', [530, 545]], ['NedVelocity', [100]], ['BodyVelocity', [528]]]
+    return [
+        dict(base_, kind='transparent', mode='none', sched=sched(), gm=none, am=none, dirty=False, none_models=True),
+        dict(base_, kind='transparent', mode='empty', sched=sched(meas_mode='empty', alt=False, step=1000),
+             gm=full, am=bias, dirty=True, none_models=False),
+        dict(base_, kind='rerun', mode='rerun', sched=sched(meas_mode='list', sensors=meas, step=16),
+             gm=full, am=bias, dirty=True, none_models=False, msd=[1.0, 0.3, 0.2]),
+        dict(base_, kind='rerun', mode='rerun', sched=sched(meas_mode='list', sensors=meas, step=16, alt=False),
+             gm=bias, am=full, dirty=False, none_models=False, msd=[1.0, 0.3, 0.2]),
+    ]
+
+
+def error_probes():
+    """the documented ValueError of update_estimates (wrong length).  Returns (problems, hit lines, measured)."""
+    import linecov
+    problems = []
+    cov = linecov.LineCoverage(cov_functions())
+    with cov:
+        active = cov.active
+        m = B.make_model(dict(bias=[1, 1, 1], walk=[0, 0, 0], noise=[0, 0, 0], sm=[0] * 9), [1e-4, 1e-5, 1e-7, 1e-3])
+        try:
+            m.update_estimates(np.zeros(m.n_states + 1))
+            problems.append("update_estimates accepts a vector of the wrong length")
+        except ValueError:
+            pass
+    return problems, {k: sorted(v) for k, v in cov.hit.items()}, active
+
+
+def cov_finish(r, cov, active):
+    if not active:
+        r.log("line coverage: sys.monitoring tool id not available, not measured")
+        r.coverage['code_lines'] = dict(measured=False)
+        return
+    summ, missing = cov.report(allow=COV_ALLOW)
+    r.coverage['code_lines'] = dict(measured=True, functions=summ, allowed_unreached=list(COV_ALLOW))
+    tot = sum(v['executable'] for v in summ.values())
+    got = sum(v['executed'] for v in summ.values())
+    r.log(f"line coverage of the modelled implementation functions: {got}/{tot} executable lines executed, "
+          f"{len(missing)} unexpected unreached")
+    if missing:
+        r.broken('correspondence', 'code line not exercised',
+                 "the generated cases never execute these lines of the code the model claims to cover: "
+                 + "; ".join(missing))
 
 
 def run_many(cases, jobs=None):
@@ -460,6 +552,9 @@ def process(r, cases, label, max_report=3):
     dist = r.coverage.setdefault('distribution', collections.Counter())
     nviol = nbrk = 0
     for c, o in zip(cases, results):
+        if o.get('cov') is not None and getattr(r, 'linecov', None) is not None:
+            r.linecov.merge(o['cov'])
+            r.linecov_measured = True
         if isinstance(c, tuple):
             dist[f"sweep:alt={c[0]}"] += 1
             r.case(('sweep',) + c, sample=dict(sweep=dict(alt=c[0], seed=c[1]), table=o.get('table')))
@@ -509,6 +604,16 @@ def check(r):
     ]
     r.prove('Props/C12.v')
     warm_up()
+    import linecov
+    r.linecov = linecov.LineCoverage(cov_functions())
+    r.linecov_measured = False
+    problems, hits, active = error_probes()
+    if active:
+        r.linecov.merge(hits)
+        r.linecov_measured = True
+    for pr in problems:
+        r.broken('correspondence', 'documented error path', pr)
+    process(r, corpus(), 'corpus')
     rng = random.Random(r.seed * 1000003 + 12)
     nt, nr = (120, 30) if r.tier == 'quick' else (2500, 400)
     cases = [gen_case(rng, 'transparent') for _ in range(nt)]
@@ -523,6 +628,7 @@ def check(r):
     seeds = [r.seed] if r.tier == 'quick' else [r.seed, r.seed + 1, r.seed + 2]
     res = process(r, [(alt, sd) for sd in seeds for alt in (True, False)], 'error-scale sweep')
     r.coverage['error_scale_sweep'] = [dict(alt=o.get('alt'), seed=o.get('seed'), table=o.get('table')) for o in res]
+    cov_finish(r, r.linecov, r.linecov_measured)
     r.coverage['distribution'] = dict(sorted(r.coverage['distribution'].items()))
     if r.tier == 'thorough':
         r.hygiene('Props/C12.v')
